@@ -437,7 +437,7 @@ func jobs(quick bool) []job {
 		for _, h := range []string{"S2", "S4"} {
 			add(h, 15, 2)
 		}
-		add("S3", 15, 0)
+		add("S3", 30, 0)
 		return out
 	}
 	// thorough: the tiny harnesses first, then breadth first
@@ -459,13 +459,14 @@ func jobs(quick bool) []job {
 	}
 	add("S3", 240, 1)
 	add("S5", 90, 2)
-	add("S7", 90, 2)
+	add("S7", 200, 2)
+	add("S3b", 90, 3)
 	return out
 }
 
 func c32(r *engine.Run) {
 	runtime.GOMAXPROCS(1)      // the cooperative scheduler hands over between goroutines: one P avoids cross-thread wake-ups
-	budget := 60 * time.Second // the build steps of ./run take another 10-30 s
+	budget := 50 * time.Second // the build steps of ./run take another 10-30 s
 	if r.Thorough() {
 		budget = 13 * time.Minute
 	}
@@ -499,6 +500,7 @@ func c32(r *engine.Run) {
 	}
 	results := runPlan(r, js)
 	stopWorkers()
+	engine.Cleanup() // (Finish exits the process: deferred clean-up in main would not run)
 	if r.Thorough() && os.Getenv("VERIF_C32_ONLY") == "" {
 		supplementResult = supplement(r, 40, 240*time.Second)
 	}
